@@ -757,11 +757,14 @@ class Saver:
 
                 for chunk in chunks:
                     new_f = self.save(chunk=chunk, chunk_i=chunk_i, executor=executor)
+                    still_pending = []
                     for f in pending:
                         if f.done():
                             # Surface a failed write instead of forgetting it
                             f.result()
-                    pending = [f for f in pending if not f.done()]
+                        else:
+                            still_pending.append(f)
+                    pending = still_pending
                     if new_f is not None:
                         pending += [new_f]
                     chunk_i += 1
